@@ -355,7 +355,11 @@ RULE_CONN = ("a Connection over a scripted ConnectionTransport / ConnectionHandl
              "history (announcements, dials with instants, registrations, OnConnect, finalize, releases, executions) is judged by "
              "the Lean monitors; distinct = distinct histories on which every monitor of this property holds")
 CONN = dict(mode="conn", n=(1500, 20000), judge="mon")
-prop("C14", lean=["FmpRpc.Tie.C14", "FmpRpc.Props.C14"], runs=[dict(CONN)], rule=RULE_CONN,
+prop("C14", lean=["FmpRpc.Tie.C14", "FmpRpc.Props.C14"],
+     runs=[dict(CONN), dict(mode="builtin", n=(400, 4000), judge="eq")],
+     rule=RULE_CONN + " || builtin: the real plain and TLS connection transports over an in-memory dialer: random sequences of "
+          "Dial (ok / refused / failing handshake), Finalize and Close in the order a Connection issues them; after every "
+          "Finalize every earlier transport and its network connection must be closed, after Close all of them",
      assumptions=["keybase/backoff.RetryNotifyWithContext is modelled (its loop: operation, NextBackOff, notify, sleep-or-ctx)"])
 prop("C15", lean=["FmpRpc.Tie.C15", "FmpRpc.Props.C15"], runs=[dict(CONN)], rule=RULE_CONN,
      assumptions=["keybase/backoff.RetryNotify is modelled"])
